@@ -62,6 +62,8 @@ class Engine:
         self.class_ids: dict = {}
         from . import lib
         lib.install(self)
+        for fn, h in self.reg.rt_helpers.get("builtins", {}).items():
+            self.builtins[fn] = h
         self.preregister()
 
     def preregister(self):
@@ -744,10 +746,38 @@ class Engine:
             if kind.elem == k.elem and not kind.region:
                 return sv
             if kind.elem == k.elem and not k.region and kind.region:
-                raise Unsupported("list region mismatch %s -> %s (line %s)" % (k, kind, getattr(node, "lineno", "?")))
+                r = self.alloc(st)
+                ns_, es_ = self.lnames(k)
+                nd_, ed_ = self.lnames(kind)
+                st.heap[nd_] = z3.Store(self.harr(st, nd_), r, self.harr(st, ns_)[sv.term])
+                st.heap[ed_] = z3.Store(self.harr(st, ed_), r, self.harr(st, es_)[sv.term])
+                return SV(kind, z3.If(sv.term == 0, 0, r) if k.nullable else r)
         if isinstance(kind, KDict) and isinstance(k, KDict):
             if kind.k == k.k and kind.v == k.v and not kind.region:
                 return sv       # a region is a refinement of the plain kind
+            if kind.k == k.k and kind.v == k.v and not k.region and kind.region:
+                # a plain (freshly built, e.g. by a display or comprehension) dict stored where a region is
+                # declared: re-homed into the region with the same content
+                r = self.alloc(st)
+                hs, vs, ns = self.dnames(k)
+                hd, vd, nd = self.dnames(kind)
+                st.heap[hd] = z3.Store(self.harr(st, hd), r, self.harr(st, hs)[sv.term])
+                st.heap[vd] = z3.Store(self.harr(st, vd), r, self.harr(st, vs)[sv.term])
+                st.heap[nd] = z3.Store(self.harr(st, nd), r, self.harr(st, ns)[sv.term])
+                return SV(kind, z3.If(sv.term == 0, 0, r) if k.nullable else r)
+            if kind.k == k.k and k.v is KVal and kind.v in (KFloat, KInt, KStr, KBool) and not k.region:
+                # dynamic values stored where typed values are declared (JSON numbers): same keys, unboxed values
+                r = self.alloc(st)
+                hs, vs, ns = self.dnames(k)
+                hd, vd, nd = self.dnames(kind)
+                st.heap[hd] = z3.Store(self.harr(st, hd), r, self.harr(st, hs)[sv.term])
+                st.heap[nd] = z3.Store(self.harr(st, nd), r, self.harr(st, ns)[sv.term])
+                va = st.fresh("unboxd", z3.ArraySort(sort_of(kind.k), sort_of(kind.v)))
+                kk = z3.Const("unboxd_k", sort_of(kind.k))
+                src = self.harr(st, vs)[sv.term]
+                st.assume(qforall([kk], va[kk] == self.coerce_val_unchecked(st, SV(KVal, src[kk]), kind.v).term, patterns=[va[kk]]), quantified=True)
+                st.heap[vd] = z3.Store(self.harr(st, vd), r, va)
+                return SV(kind, r)
             raise Unsupported("dict region mismatch %s -> %s (line %s)" % (k, kind, getattr(node, "lineno", "?")))
         if isinstance(kind, KSet) and isinstance(k, KSet):
             if kind.elem == k.elem and not kind.region:
@@ -799,9 +829,23 @@ class Engine:
         elif kind is KStr:
             self.type_ob(st, V.is_vstr(t), "str", node)
         elif isinstance(kind, KList):
-            if kind.elem is not KVal:
-                raise Unsupported("unbox Val to %s" % kind)
             self.type_ob(st, z3.Or(V.is_vlist(t), V.is_vtuple(t), V.is_vnone(t)), "list", node)
+            if kind.elem is not KVal:
+                if kind.elem not in (KFloat, KInt, KStr, KBool):
+                    raise Unsupported("unbox Val to %s" % kind)
+                # a dynamic list seen as a typed list: a fresh typed list with the unboxed elements
+                src = SV(KList(KVal), z3.If(V.is_vlist(t), V.lr(t), V.tr(t)))
+                n = self.list_len(st, src)
+                out = self.new_list(st, KList(kind.elem), n)
+                _, e_dst = self.lnames(out.kind)
+                _, e_src = self.lnames(src.kind)
+                arr = st.fresh("unboxl", z3.ArraySort(z3.IntSort(), sort_of(kind.elem)))
+                i = z3.Int("unbox_i")
+                el = self.coerce_val_unchecked(st, SV(KVal, self.harr(st, e_src)[src.term][i]), kind.elem).term
+                st.assume(qforall([i], arr[i] == el, patterns=[arr[i]]), quantified=True)
+                st.heap[e_dst] = z3.Store(self.harr(st, e_dst), out.term, arr)
+                res = SV(kind, z3.If(V.is_vnone(t), 0, out.term))
+                return res
         elif isinstance(kind, KDict):
             self.type_ob(st, z3.Or(V.is_vdict(t), V.is_vnone(t)), "dict", node)
         elif isinstance(kind, KRef):
